@@ -94,6 +94,17 @@ def classify(spec, run):
     return cls
 
 
+def ancestors(spec, i):
+    seen, stack = set(), [i]
+    while stack:
+        j = stack.pop()
+        for u in spec["nodes"][j]["u"]:
+            if u not in seen:
+                seen.add(u)
+                stack.append(u)
+    return seen
+
+
 def oracle(spec, run, pid=ID):
     v = []
     inputs, outputs = local.node_io(spec, run.log)
@@ -101,6 +112,11 @@ def oracle(spec, run, pid=ID):
         if nd["k"] == "entry":
             continue
         complete = not local.has_zip_below(spec, i) and nd["k"] != "zip"
+        # a tick source (timed_window emits a batch every interval for ever) feeding a slower
+        # delay/rate_limit builds an unbounded backlog: the bounded finish phase cannot drain it
+        chain = {spec["nodes"][a]["k"] for a in ancestors(spec, i)} | {nd["k"]}
+        if chain & {"timed_window", "timed_window_unique"} and chain & {"delay", "rate_limit"}:
+            complete = False
         v += local.check_node(pid, spec, i, inputs[i], outputs[i], complete=complete)
     # each consumer invocation finished exactly once is the harness's doing; exceptions carried
     # by emit futures are not expected here (no faults injected)
